@@ -71,6 +71,12 @@ CHECKS['C16'] = dict(level='exploration',
     note='Trusted: ASan/UBSan on executed paths; the dump as observable of option values.',
     design='DESIGN.md §2 C16')
 
+CHECKS['C02'] = dict(level='exploration',
+    technique='runtime monitoring with the chunk-dump hook: token-stream oracles (character stream + directive flags from T dumps, independent lexer, own tokenizer re-lex) over corpus x whitespace configs, fixed mutant/joint universes and a token-pair table',
+    text='Each case formats an input with a whitespace-only configuration and re-lexes the output: the non-comment character stream and per-character directive flags (hook dumps), the token boundaries by an independent lexer written from the language standards (C, C++, ObjC, Java, C# precise; D, Vala, Pawn, ECMA generic) and uncrustify\'s own tokenizer must agree between input and output. Workloads: corpus x 13 curated configs, 40k joint whitespace draws and 20k (file, test config) pairs as fixed universes, 10k byte mutants, and every ordered pair of 56 token classes under all sp_=remove/force.',
+    note='Trusted: the T-stage dump hook is passive (C10 checks output equality with hooks on); the independent lexer is authoritative only on well-lexed input.',
+    design='DESIGN.md §2 C02')
+
 ALL = ['C%02d' % i for i in range(1, 21)]
 
 
